@@ -1551,6 +1551,15 @@ void Validator::ValidatorImpl::validateMath(const std::string &input, const Comp
 {
     // Parse as XML first.
     std::vector<XmlDocPtr> docs = multiRootXml(input);
+    if (docs.empty() && !std::all_of(input.begin(), input.end(), isspace)) {
+        // The string is not blank and yet contains no element at all (e.g. plain text).
+        auto issue = Issue::IssueImpl::create();
+        issue->mPimpl->setDescription("Math on component '" + component->name() + "' does not contain any XML element. A valid math root node should be of type 'math'.");
+        issue->mPimpl->mItem->mPimpl->setComponent(component);
+        issue->mPimpl->setReferenceRule(Issue::ReferenceRule::MATH_ELEMENT);
+        addIssue(issue);
+        return;
+    }
     for (const auto &doc : docs) {
         // Copy any XML parsing issues into the common validator issue handler.
         if (doc->xmlErrorCount() > 0) {
